@@ -2,6 +2,7 @@ package sim
 
 import (
 	"fmt"
+	"runtime"
 	"sort"
 	"time"
 
@@ -32,6 +33,12 @@ type c18Handler struct {
 	events     []c18Event
 	cachedAt   map[objKey][]byte // cache content when it was added
 	world      *World
+	// racing: the handler was added in the very kernel step in which a watch frame
+	// was handed to the informer, and its callbacks yield the processor while the
+	// initial replay runs, so the informer processes that frame during addHandler
+	racing  bool
+	raceKey string
+	raceIdx int // index in the cache log of the frame handed over together with the add
 }
 
 func (h *c18Handler) rec(typ string, obj interface{}, same bool) {
@@ -45,8 +52,15 @@ func (h *c18Handler) rec(typ string, obj interface{}, same bool) {
 		return
 	}
 	h.world.mu.Lock()
-	defer h.world.mu.Unlock()
 	h.events = append(h.events, c18Event{step: h.world.step, typ: typ, key: u.GetNamespace() + "/" + u.GetName(), rv: u.GetResourceVersion(), sameObjs: same})
+	h.world.mu.Unlock()
+	if h.racing && same {
+		// a handler that takes its time: every other runnable goroutine gets the
+		// processor (no lock of the harness is held here)
+		for i := 0; i < 64; i++ {
+			runtime.Gosched()
+		}
+	}
 }
 
 func (h *c18Handler) OnAdd(obj interface{}, isInInitialList bool) { h.rec("add", obj, false) }
@@ -122,7 +136,7 @@ func C18Scenario() *Scenario {
 		}
 		// one operation, drawn from the tape
 		doOp := func(w *World) {
-			kinds := []string{"subscribe", "add-handler", "add-handler-resync", "remove-handlers", "close", "object-edit", "object-create", "object-delete", "advance"}
+			kinds := []string{"subscribe", "add-handler", "add-handler-resync", "remove-handlers", "close", "object-edit", "object-create", "object-delete", "advance", "add-handler-racing"}
 			op := kinds[t.Pick(len(kinds), "op")]
 			var open []*c18Sub
 			for _, s := range subs {
@@ -141,7 +155,7 @@ func C18Scenario() *Scenario {
 				s := &c18Sub{id: len(subs), res: res, ri: ri, openStep: w.step, inc: w.inc}
 				subs = append(subs, s)
 				opLog = append(opLog, fmt.Sprintf("%d subscribe#%d %s", w.step, s.id, res.Kind))
-			case "add-handler", "add-handler-resync":
+			case "add-handler", "add-handler-resync", "add-handler-racing":
 				if len(open) == 0 {
 					return
 				}
@@ -149,7 +163,39 @@ func C18Scenario() *Scenario {
 				h := &c18Handler{id: len(handlers), sub: s, addStep: w.step, world: w, cachedAt: w.Cache.View(w.inc, s.res, w.step)}
 				handlers = append(handlers, h)
 				s.handlers = append(s.handlers, h)
-				if op == "add-handler" {
+				if op == "add-handler-racing" {
+					// hand one pending frame of this resource to the informer and add the
+					// handler within the same kernel step
+					h.racing = true
+					pending := false
+					for _, ws := range w.OpenStreams() {
+						if ws.Res == s.res && w.streamPending(ws) {
+							pending = true
+						}
+					}
+					if !pending {
+						// make one: another writer changes an object right now
+						name := fmt.Sprintf("o%d", t.Pick(4, "obj"))
+						switch t.Pick(3, "racewrite") {
+						case 0:
+							EditObject(w, s.res, "ns1", name, "user", func(o Object) { setPath(o, fmt.Sprint(w.step), childContentField(s.res), "v") })
+						case 1:
+							w.Store.Create(s.res, "ns1", Object{"metadata": Object{"name": name}, childContentField(s.res): Object{"v": "new"}}, "user")
+						case 2:
+							w.Store.Delete(s.res, "ns1", name, DeleteOpts{}, "user")
+						}
+					}
+					for _, ws := range w.OpenStreams() {
+						if ws.Res == s.res && w.streamPending(ws) && w.Deliver(ws) {
+							last := w.Cache.log[len(w.Cache.log)-1]
+							h.raceKey = last.Key.ns + "/" + last.Key.name
+							h.raceIdx = len(w.Cache.log) - 1
+							w.Probes["handler-added-while-frame-in-flight"]++
+							break
+						}
+					}
+				}
+				if op != "add-handler-resync" {
 					s.ri.Informer().AddEventHandler(h)
 				} else {
 					s.ri.Informer().AddEventHandlerWithResyncPeriod(h, time.Duration(2+t.Pick(20, "resync"))*time.Second)
@@ -228,6 +274,9 @@ func C18Scenario() *Scenario {
 				}
 				// replay of what was cached when it was added
 				for k, raw := range h.cachedAt {
+					if h.racing && k.ns+"/"+k.name == h.raceKey {
+						continue // judged below, frame by frame
+					}
 					o := mustParse(raw)
 					if !got["any "+k.ns+"/"+k.name+" "+mstr(o, "resourceVersion")] {
 						// a newer version delivered in the same step also counts: look for any event of that key at/after the add
@@ -246,7 +295,10 @@ func C18Scenario() *Scenario {
 				// every frame delivered to this process for the resource while the handler was registered
 				for i := range w.Cache.log {
 					ch := &w.Cache.log[i]
-					if ch.Inc != h.sub.inc || ch.Res != res.Key() || ch.List || ch.Step <= h.addStep {
+					if ch.Inc != h.sub.inc || ch.Res != res.Key() || ch.List || ch.Step < h.addStep || (ch.Step == h.addStep && !h.racing) {
+						continue
+					}
+					if ch.Step == h.addStep && (h.raceKey == "" || i != h.raceIdx) {
 						continue
 					}
 					if h.removeStep != 0 && ch.Step >= h.removeStep {
@@ -258,10 +310,17 @@ func C18Scenario() *Scenario {
 					key := ch.Key.ns + "/" + ch.Key.name
 					if ch.Raw == nil {
 						found := false
+						heard := false
 						for _, e := range h.events {
+							if e.key == key && e.sameObjs && e.step == h.addStep {
+								heard = true // the initial replay still listed the object
+							}
 							if e.typ == "delete" && e.key == key && e.step >= ch.Step {
 								found = true
 							}
+						}
+						if ch.Step == h.addStep && !heard {
+							continue // deleted before the replay listed the cache: nothing to tell
 						}
 						if !found {
 							return &Violation{Prop: "C18", Class: "event-not-delivered", Sig: sig,
